@@ -31,7 +31,9 @@ for _i in range(1, 6):
     TOKENS["v%d" % _i] = "val-%d" % _i
     TOKENS["n%d" % _i] = "mark-%d" % _i
 # values larger than the server's read buffer (0xFFFF): placeholders in the specification, expanded by the harness
-BIG = {"BIG": "@REP:204800:0123456789abcdefghijklmnopqrstuvwxyz", "BIG2": "@REP:70000:ZYXWVUTSRQ"}
+BIG = {"BIG": "@REP:204800:0123456789abcdefghijklmnopqrstuvwxyz", "BIG2": "@REP:70000:ZYXWVUTSRQ",
+       # expanded by the harness so that the whole stream is <rem> bytes longer than a multiple of <mod> (the read buffer + 1 / the read buffer)
+       "PAD0": "@PAD:65536:0", "PAD1": "@PAD:65536:1", "PADm": "@PAD:65536:65535", "PADq": "@PAD:65535:0"}
 
 C_PING = '<<"PING">>'
 C_ECHO = '<<"ECHO", "m1">>'
@@ -76,7 +78,8 @@ def write_tokens(ctx):
     return p
 
 
-BASE = dict(Tok="<- MCTok", NegBulk="index", Panics="recover")
+# the two read buffers of a connection, as coded (0xFFFF each)
+BASE = dict(Tok="<- MCTok", NegBulk="index", Panics="recover", ReadBuf=65535, PktBuf=65535)
 
 
 def model_error(r, what):
@@ -151,7 +154,7 @@ def run_split(ctx, label, beh, par=16, extra=(), random=2, pause_us=300, bat=Tru
 
 
 # ---------------------------------------------------------------------------- stage: long streams
-def gen_long(ctx, name, lens, num, big_one_in, timeout=1500):
+def gen_long(ctx, name, lens, num, big_one_in, timeout=1500, last=None):
     ids = ["i%d" % i for i in range(1, 9)]
     vals = ["v%d" % i for i in range(1, 6)] + ["qs"]
     marks = ["n%d" % i for i in range(1, 6)]
@@ -165,11 +168,13 @@ MCVals == %s
 MCMarks == %s
 MCBig == {"BIG", "BIG2"}
 MCLens == {%s}
+MCLastCmd == %s
 ====
-""" % (name, tok_def(), sset(ids), sset(vals), sset(marks), ", ".join(str(x) for x in lens))
+""" % (name, tok_def(), sset(ids), sset(vals), sset(marks), ", ".join(str(x) for x in lens),
+       ("<<" + ", ".join('"%s"' % a for a in last) + ">>") if last else "<<>>")
     cfg = ("SPECIFICATION SimSpec\n" +
            cfg_consts(Sniff="line", Kinds="<- MCKinds", LastKinds="<- MCLast", Ids="<- MCIds", Vals="<- MCVals",
-                      Marks="<- MCMarks", BigVals="<- MCBig", BigOneIn=big_one_in, Lens="<- MCLens", **BASE) +
+                      Marks="<- MCMarks", BigVals="<- MCBig", BigOneIn=big_one_in, Lens="<- MCLens", LastCmd="<- MCLastCmd", **BASE) +
            "INVARIANT Shape\n")
     # RandomElement draws from one generator per worker, all seeded alike: one worker
     r = ctx.tlc(name, ["Proto.tla", "ProtoSim.tla"], mc, cfg, workers=1, simulate=num, depth=max(lens) + 5, timeout=timeout)
@@ -183,18 +188,18 @@ MCLens == {%s}
     return r, beh, n
 
 
-def run_long(ctx, label, beh, par, random, twoway, bytemax):
+def run_long(ctx, label, beh, par, random, twoway, bytemax, burst=False):
     rc, js, err = ctx.harness(["proto-long", "-in", beh, "-tok", write_tokens(ctx), "-par", str(par), "-random", str(random),
-                               "-twoway", str(twoway), "-byte-max", str(bytemax)], timeout=3000)
+                               "-twoway", str(twoway), "-byte-max", str(bytemax)] + (["-burst"] if burst else []), timeout=3000)
     st = js["stats"]
     mism = js.get("mismatches") or []
     ctx.log("long %s: %d streams (longest pipeline %d frames, largest value %d bytes), %d runs %s, %d reply frames, %d mismatches"
             % (label, st["streams"], st["longest_pipeline_frames"], st["largest_value_bytes"], st["runs"],
                json.dumps(st["runs_by_kind"], sort_keys=True), st["reply_frames_compared"], len(mism)))
     for m in mism:
-        text = "stage=%s %s: stream %s cuts %s: %s (got %s)" % (label, m["what"], m["stream"], (m.get("cuts") or [])[:12], m["detail"], m.get("got"))
+        text = "stage=%s %s: stream %s cuts %s: %s (got %s)" % (label, m["what"], m["stream"][:300], (m.get("cuts") or [])[:12], m["detail"], (m.get("got") or [])[-3:])
         with _lock:
-            common.report(ctx, rname(label), text, {"kind": "long", "stage": label, "line": m["group"], "mismatch": {k: m[k] for k in ("what", "detail", "cuts")}})
+            common.report(ctx, rname(label), text, {"kind": "long", "stage": label, "burst": burst, "line": m["group"], "mismatch": {k: m.get(k) for k in ("what", "detail", "cuts")}})
     if st["runs"] == 0 or st["reply_frames_compared"] == 0:
         raise common.Infra("stage %s compared nothing (vacuous)" % label)
     return st, js
@@ -222,7 +227,7 @@ MCAlpha == {%s}
 def mal_cfg(spec, negbulk, invariants=True, panics="recover"):
     # the framing of malformed input is compared with the intended sniffing rule (first LF-terminated line; fixed in aa35bd8)
     return ("SPECIFICATION %s\n" % spec +
-            cfg_consts(Tok="<- MCTok", NegBulk=negbulk, Panics=panics, Sniff="line", Kinds="<- MCKinds", BaseCmds="<- MCCmds",
+            cfg_consts(Tok="<- MCTok", NegBulk=negbulk, Panics=panics, ReadBuf=65535, PktBuf=65535, Sniff="line", Kinds="<- MCKinds", BaseCmds="<- MCCmds",
                        RepBytes="<- MCRep", Ids="<- MCIds", SimLen=40, SimAlphabet="<- MCAlpha") +
             ("INVARIANT Contained ErrorCloses\n" if invariants else ""))
 
@@ -325,6 +330,38 @@ def run(ctx):
         res["long"] = run_long(ctx, "long", beh, par=ctx.pick(4, 8), random=ctx.pick(6, 20), twoway=ctx.pick(30, 200),
                                bytemax=ctx.pick(20000, 60000))
 
+    def stage_burst():
+        # streams whose total length is a multiple of the read buffer (+1), one byte more / less: the whole stream is
+        # queued in the socket while the connection is busy (SLEEP), so that the server's reads return full buffers
+        sts = []
+        for pad in ("PAD0", "PAD1", "PADm", "PADq"):
+            # (no values above the read buffer here: the whole stream has to fit into the socket's receive queue)
+            r, beh, n = gen_long(ctx, "burst_" + pad, [12, 40, ctx.pick(300, 1200)], ctx.pick(3, 9), 1000000, last=["ECHO", pad])
+            acc_tlc(r)
+            sts.append(run_long(ctx, "burst-" + pad, beh, par=3, random=0, twoway=0, bytemax=0, burst=True))
+        res["burst"] = sts
+
+    def stage_bufs():
+        # design level: the two buffers of a connection with small sizes.  Equal sizes (as coded): every segmentation of
+        # every stream satisfies SplitInvariant / OnePerCommand / CarryIncomplete; a read buffer one byte larger than the
+        # parser's packet buffer leaves bytes behind until the next read (refuted)
+        def cfg(rb, pb):
+            c = dict(BASE, ReadBuf=rb, PktBuf=pb)
+            return ("SPECIFICATION Spec\n" + cfg_consts(Sniff="line", Kinds="<- MCKinds", Cmds="<- MCCmds", Ids="<- MCIds", MaxFrames=2,
+                                                        EmitChunks=0, **c) + "VIEW View\nINVARIANT SplitInvariant OnePerCommand CarryIncomplete\n")
+        mc = "---- MODULE MC_%%s ----\nEXTENDS ProtoGen\n%s\nMCKinds == %s\nMCCmds == {%s}\nMCIds == {\"a\", \"b\"}\n====\n" % (
+            tok_def(), sset(["resp", "telnet", "native"]), ", ".join([C_PING, C_ECHO, C_GET]))
+        r = ctx.tlc("bufs_eq", ["Proto.tla", "ProtoGen.tla"], mc % "bufs_eq", cfg(9, 9), workers=4, timeout=900)
+        if not r["ok"]:
+            model_error(r, "bufs_eq")
+        acc_tlc(r)
+        r2 = ctx.tlc("bufs_plus1", ["Proto.tla", "ProtoGen.tla"], mc % "bufs_plus1", cfg(10, 9), workers=4, timeout=900, expect_violation=True)
+        if r2["violated"] is None:
+            raise common.Infra("a read buffer larger than the packet buffer is not refuted by the model (vacuous)")
+        res["bufs"] = r2["violated"]
+        ctx.log("TLC bufs: read buffer = packet buffer = 9 bytes: %d states, all segmentations satisfy the invariants; read buffer 10 / "
+                "packet buffer 9 violates %s (bytes wait for the next read)" % (r["distinct"], r2["violated"]))
+
     def stage_mal():
         rep = REP_QUICK if q else REP_FULL
         r, beh, n = gen_mal(ctx, "mal", rep)
@@ -336,7 +373,7 @@ def run(ctx):
         acc_tlc(r)
         res["malsim"] = run_mal(ctx, "malformed-random", beh, server)
 
-    stages = [stage_cuts3, stage_cuts2, stage_lf, stage_long, stage_mal]
+    stages = [stage_cuts3, stage_cuts2, stage_lf, stage_long, stage_bufs, stage_burst, stage_mal]
     with concurrent.futures.ThreadPoolExecutor(max_workers=ctx.pick(3, 3)) as ex:
         futs = [ex.submit(s) for s in stages]
         errs = []
@@ -349,8 +386,9 @@ def run(ctx):
             raise errs[0]
 
     split_stages = [k for k in ("cuts3", "cuts2", "frames3", "telnet-lf") if k in res]
-    runs = sum(res[k][0]["runs"] for k in split_stages) + res["long"][0]["runs"]
-    frames = sum(res[k][0]["reply_frames_compared"] for k in split_stages) + res["long"][0]["reply_frames_compared"]
+    runs = sum(res[k][0]["runs"] for k in split_stages) + res["long"][0]["runs"] + sum(b[0]["runs"] for b in res["burst"])
+    frames = (sum(res[k][0]["reply_frames_compared"] for k in split_stages) + res["long"][0]["reply_frames_compared"] +
+              sum(b[0]["reply_frames_compared"] for b in res["burst"]))
     by_kind = {}
     for k in split_stages + ["long"]:
         for kk, v in res[k][0]["runs_by_kind"].items():
@@ -376,6 +414,8 @@ def run(ctx):
             "segments_consumed_by_server_before_next_write": sum(res[k][0]["segments_consumed_before_next_write"] for k in split_stages),
             "longest_pipeline_frames": res["long"][0]["longest_pipeline_frames"],
             "largest_value_bytes": res["long"][0]["largest_value_bytes"],
+            "burst_deliveries_with_the_connection_busy": sum(b[0]["runs_by_kind"].get("burst", 0) for b in res["burst"]),
+            "two_level_buffer_design": "ReadBuf = PktBuf holds; ReadBuf = PktBuf + 1 violates %s" % res["bufs"],
         },
         "fault_enumeration": {
             "single_operator_mutations": res["mal"][0]["cases"],
@@ -415,7 +455,7 @@ def run_replay(ctx):
     if p["kind"] == "split":
         run_split(ctx, p["stage"], f, par=1, extra=p.get("extra") or [], random=0, bat=False)
     elif p["kind"] == "long":
-        run_long(ctx, p["stage"], f, par=1, random=0, twoway=0, bytemax=0)
+        run_long(ctx, p["stage"], f, par=1, random=0, twoway=0, bytemax=0, burst=bool(p.get("burst")))
     elif p["kind"] == "mal":
         run_mal(ctx, p["stage"], f, common.build_server(), par=1)
     else:
